@@ -393,7 +393,7 @@ RO_CLASSES = [("free", "{v} == 0"), ("resv", "{v} == 1"), ("err", "{v} == 0xfff7
 def obligations(tier, seed):
     q = tier == "quick"
     obs = []
-    T = 170 if q else 1500
+    T = 170 if q else 900
     # AKAI: skeleton = table size, start sector and coarse class of word 0; every word is a raw symbolic 16-bit value
     for n in ((2, 3, 4) if q else (2, 3, 4, 5)):
         for start in range(n):
@@ -403,6 +403,8 @@ def obligations(tier, seed):
                 if q and n == 4 and cname not in ("free", "eof"):
                     continue
                 pre = [f"n == {n}", f"start == {start}"] + ([cpre.format(v="b0")] if n > 2 else [])
+                if n == 5 and cname not in ("link", "res"):
+                    continue                      # 5-sector tables: only the two classes of word 0 that start a chain / a directory run (wall-time budget)
                 if n == 5:
                     for c1name, c1pre in AK_CLASSES:
                         obs.append(_ob(f"C07.akai/n={n}/start={start}/w0={cname}/w1={c1name}", "h_akai", pre + [c1pre.format(v="b1")], T,
